@@ -33,8 +33,14 @@ def status_table():
         fx = sum(v for k, v in c.get("input_distribution", {}).items() if k.endswith(":kind:fx"))
         rows.append("| %s | %s | %.1f k | %s | %s |" % (pid, "%d" % th if not gen else "%d (%d generated)" % (th, gen), c["evaluations"] / 1000.0, fx or "-", NOTES[pid]))
     return "\n".join(rows)
-def seeded_table(pred, needs=False):
-    rows = ["| id | %sresult of `./check <prop> quick` | report |" % ("needs | " if needs else ""), "|---|---|---|" + ("---|" if needs else "")]
+def flagged(ck):
+    """did the regenerated obligations (translated bodies, tables, source assertions) alone flag the change?"""
+    for l in ck.get("report", []):
+        m = re.search(r"(\d+)/(\d+) generated obligations", l)
+        if m: return "yes (%d of %d fail)" % (int(m.group(2)) - int(m.group(1)), int(m.group(2))) if m.group(1) != m.group(2) else "no"
+    return "no"
+def seeded_table(pred, needs=False, obl=False):
+    rows = ["| id | %sresult of `./check <prop> quick` | %sreport |" % ("needs | " if needs else "", "flagged by the obligations | " if obl else ""), "|---|---|---|" + ("---|" if needs else "") + ("---|" if obl else "")]
     for mid in sorted(os.listdir(os.path.join(ROOT, "seeded"))):
         mp = os.path.join(ROOT, "seeded", mid, "meta.json")
         if not os.path.isfile(mp) or not pred(mid): continue
@@ -43,7 +49,8 @@ def seeded_table(pred, needs=False):
         rep = next((l for l in ck.get("report", []) if l.startswith("# ")), "")
         rep = re.sub(r"\|", r"\\|", rep[2:110])
         extra = " (missed before the fifth hardening round: %s)" % ck["was_missed_before"][:90] if "was_missed_before" in ck else ""
-        rows.append("| %s | %s%s | %s%s |" % (mid, nd, "VIOLATION" if ck.get("detected") else "**not detected**", "`%s`" % rep if rep else ck.get("why_missed", ""), extra))
+        if rep.startswith("proof-break"): rep = next((re.sub(r"\|", r"\\|", l[2:110]) for l in ck.get("report", []) if l.startswith("# ") and not l.startswith("# proof-break")), rep[:60])
+        rows.append("| %s | %s%s | %s%s%s |" % (mid, nd, "VIOLATION" if ck.get("detected") else "**not detected**", (flagged(ck) + " | ") if obl else "", "`%s`" % rep if rep else ck.get("why_missed", ""), extra))
     return "\n".join(rows)
 def splice(s, tag, body):
     a, b = "<!-- BEGIN %s -->" % tag, "<!-- END %s -->" % tag
@@ -51,7 +58,9 @@ def splice(s, tag, body):
     return s[:s.index(a) + len(a)] + "\n" + body + "\n" + s[s.index(b):]
 p = os.path.join(ROOT, "DESIGN.md"); s = open(p).read()
 s = splice(s, "PER-PROPERTY-TABLE", status_table())
-s = splice(s, "SEEDED-WAVES-1-3", seeded_table(lambda m: not re.search(r"_a\d$", m), True))
-s = splice(s, "SEEDED-WAVE-4", seeded_table(lambda m: bool(re.search(r"_a\d$", m))))
+s = splice(s, "SEEDED-WAVES-1-3", seeded_table(lambda m: bool(re.search(r"^C\d\d_\d$", m)), True, True))
+s = splice(s, "SEEDED-WAVE-4", seeded_table(lambda m: bool(re.search(r"_a\d$", m)), False, True))
+s = splice(s, "SEEDED-WAVE-5", seeded_table(lambda m: bool(re.search(r"_b\d$", m)), False, True))
+s = splice(s, "SEEDED-WAVE-6", seeded_table(lambda m: bool(re.search(r"_c\d$", m)), False, True))
 open(p, "w").write(s)
 print("DESIGN.md tables regenerated")
